@@ -18,6 +18,7 @@ PROPS = {
     'C05': {'units': ['chal'], 'kani': [], 'exclude': r'canonical_width'},
     'C12': {'units': ['bits', 'chal'], 'kani': [], 'only': {'chal': r'canonical_width'}},
     'C15': {'units': ['shape'], 'kani': []},
+    'C08': {'units': ['mmcs'], 'kani': []},
     'C16': {'units': ['meta'], 'kani': []},
     'C11': {'units': ['air', 'run19'], 'kani': [], 'only': {'run19': r'execute_alu_op'}},
 }
@@ -133,8 +134,17 @@ META['C07'] = {
             'proof-of-work, Merkle openings (C08), and the iff with the native verifier. Builder arithmetic contracts are assumed; -1/2 and bit_length are abstracted constants/stubs.',
 }
 
+META['C08'] = {
+    'technique': 'Verus contracts on the extracted real cap-selection gadget',
+    'text': 'Deductive proof, for every cap height, digest width and boolean index-bit assignment, that select_cap_entry returns componentwise the cap entry at the little-endian index of the '
+            'remaining index bits (invariant over the halving layers: layer k entry m is cap[m*2^k + low-k-bits index]), with every index in bounds.',
+    'note': 'KERNEL ONLY (cap selection). Not under contract: leaf hashing (add_hash_*), path compression rows and direction bits, arity-4 schedules (arity4_leaf_rows / arity4_path_schedule are '
+            'itertools-heavy), the MMCS executor, and the iff with the native Merkle verifier; hash semantics are opaque to contracts. Preconditions: |cap| = 2^|bits|, equal row widths (the '
+            'debug_assert in the code), boolean bits.',
+}
+
 NOT_APPLICABLE = {
     'C01': 'whole-verifier equivalence with the external native verifier (p3-uni-stark / p3-batch-stark): needs a relational spec of ~1.5 kLoC of dependency code across four generic traits; no per-function contract within reach expresses it. Its parts are decided under C05/C07/C08/C13/C14/C15/C20.',
 }
-for _p in ['C04', 'C06', 'C08', 'C09', 'C10', 'C13', 'C14', 'C17', 'C18']:
+for _p in ['C04', 'C06', 'C09', 'C10', 'C13', 'C14', 'C17', 'C18']:
     NOT_APPLICABLE.setdefault(_p, 'not reached yet: kernel designed in DESIGN.md §5 but its contracts are not built; not claimed')
